@@ -307,8 +307,12 @@ impl World {
 	}
 
 	pub fn claimable_balances(&self, n: usize) -> Vec<Balance> {
+		if self.dead {
+			// the run ended with a library panic: locks may be poisoned
+			return Vec::new();
+		}
 		match self.nodes[n].live.as_ref() {
-			Some(l) => l.monitor.get_claimable_balances(&[]),
+			Some(l) => catch(|| l.monitor.get_claimable_balances(&[])).unwrap_or_default(),
 			None => Vec::new(),
 		}
 	}
